@@ -204,12 +204,37 @@ def corpus_cases(pid):
 # runner
 # ---------------------------------------------------------------------------------------------
 
+def _cov_start():
+    """TV_COV=<dir>: record which lines of tally's sources a worker executes (sys.monitoring, each line reported once) - a generator-gap finder,
+    never part of a verdict."""
+    mon = sys.monitoring
+    seen = set()
+    root = os.path.join(os.environ.get('TALLY_SRC') or '/repo/src', 'tally')
+
+    def on_line(code, line):
+        if code.co_filename.startswith(root):
+            seen.add((code.co_filename[len(root) + 1:], line))
+        return mon.DISABLE
+    try:
+        mon.use_tool_id(mon.COVERAGE_ID, 'tvcov')
+    except ValueError:
+        pass
+    mon.register_callback(mon.COVERAGE_ID, mon.events.LINE, on_line)
+    mon.set_events(mon.COVERAGE_ID, mon.events.LINE)
+    return seen
+
+
 def _worker(args):
     modname, kind, n, seed, tier = args
     import importlib
     try:
         mod = importlib.import_module(modname)
+        cov = _cov_start() if os.environ.get('TV_COV') else None
         st = mod.run_shard(kind, n, seed, tier)
+        if cov is not None:
+            os.makedirs(os.environ['TV_COV'], exist_ok=True)
+            with open(os.path.join(os.environ['TV_COV'], f'{mod.ID}.{os.getpid()}.{kind}.json'), 'w') as f:
+                json.dump(sorted(cov), f)
         return ('ok', st)
     except HarnessError as e:
         return ('err', f'{kind}: {e}')
